@@ -88,3 +88,30 @@ impl<T: Write + Send + 'static> Worker<T> {
             .expect("failed to spawn `tracing-appender` non-blocking worker thread")
     }
 }
+
+// Verification hook H3 (only compiled with `--cfg tracing_verif`): forwarders
+// to the private items above. They call the real code; nothing is copied.
+#[cfg(tracing_verif)]
+impl<T: Write + Send + 'static> Worker<T> {
+    pub(crate) fn __verif_handle_recv(
+        &mut self,
+        result: &Result<Msg, RecvError>,
+    ) -> io::Result<WorkerState> {
+        self.handle_recv(result)
+    }
+
+    pub(crate) fn __verif_handle_try_recv(
+        &mut self,
+        result: &Result<Msg, TryRecvError>,
+    ) -> io::Result<WorkerState> {
+        self.handle_try_recv(result)
+    }
+
+    pub(crate) fn __verif_writer(&mut self) -> &mut T {
+        &mut self.writer
+    }
+
+    pub(crate) fn __verif_into_parts(self) -> (T, Receiver<Msg>, Receiver<()>) {
+        (self.writer, self.receiver, self.shutdown)
+    }
+}
